@@ -356,13 +356,16 @@ func emitDir(w *bufio.Writer, wid string, d dirSnap) {
 	fmt.Fprintf(w, "ENDDIR %s\n", d.id)
 }
 
-// genwal <cases-out> <seed> <tier>
+// genwal <cases-out> <seed> <tier> [big|small]
 func genWalCmd(args []string) error {
-	if len(args) != 3 {
-		return fmt.Errorf("genwal <cases> <seed> <quick|thorough>")
+	if len(args) != 3 && len(args) != 4 {
+		return fmt.Errorf("genwal <cases> <seed> <quick|thorough> [big|small]")
 	}
 	seed, _ := strconv.ParseUint(args[1], 10, 64)
 	thorough := args[2] == "thorough"
+	if len(args) == 4 && args[3] == "small" {
+		return genSmallCmd(args[0], seed, thorough)
+	}
 	r := newRng(seed ^ 0x16a1)
 	f, err := os.Create(args[0])
 	if err != nil {
@@ -377,7 +380,7 @@ func genWalCmd(args []string) error {
 	}
 	defer os.RemoveAll(root)
 
-	nscen := 3
+	nscen := 1
 	if thorough {
 		nscen = 8
 	}
@@ -573,7 +576,7 @@ func genWalCmd(args []string) error {
 				}
 			}
 		} else {
-			n := 150
+			n := 60
 			if thorough {
 				n = 1500
 			}
